@@ -211,7 +211,7 @@ REQUIRED_COUNTERS = [
     "branch_chunk_same_size_shortcut", "branch_chunk_over_shorter", "branch_chunk_absent", "res_chunk_ok", "res_chunk_err:short",
     "res_chunk_err:src", "res_chunk_err:underfoot",
     # crash cuts: every effect kind killed at least once, every store kind, the real traces
-    "crash_cases_put", "crash_cases_import", "crash_cases_chunk", "crash_cases_link", "crash_runs_killed_open",
+    "crash_cases_put", "crash_cases_import", "crash_cases_chunk", "crash_cases_link", "crash_cases_resolve", "l2_chunk_twin_checked", "crash_runs_killed_open",
     "crash_runs_killed_write", "crash_runs_killed_trunc", "crash_runs_killed_rename", "crash_runs_killed_link_open",
     "crash_runs_killed_link_rename", "crash_runs_survived", "crash_full_size_states", "trace_runs",
     # round 7: negative sizes, manifests written behind the cache's back, readAndSum over its small whole domain,
@@ -260,6 +260,8 @@ def run(ctx):
     if rc != 0:
         ctx.violation("driver-failed", "", out[-1500:], no_input=True)
     ctx.read_stats(outdir)
+    if not ctx.replay:
+        coverage_required(ctx)   # on the counters of THIS run (before the -race run adds its own)
     ctx.l1(outdir)
     ctx.classify(ctx.l2(outdir))
     if not ctx.replay:
@@ -273,8 +275,6 @@ def run(ctx):
         ctx.l1(outdir2, label="L1-race")
         ctx.classify(ctx.l2(outdir2))
         ctx.coverage["race_run"] = "ok" if rc2 == 0 else "failed"
-    if not ctx.replay:
-        coverage_required(ctx)
     if ctx.thorough:
         ctx.leanchecker(MODULES)
     ctx.assumptions += [
